@@ -595,6 +595,10 @@ func VerifC09EquivNative() {
 
 const verifOtherProfile = `#%Validation Profile 1.0
 profile: Other
+prefixes:
+  apiContract: http://example.org/contract#
+  core: http://example.org/core#
+  zoo: http://example.org/zoo#
 warning:
   - o1
 validations:
